@@ -253,14 +253,14 @@ def run(ctx):
     if q:   # all orders for a fixed set of child-count vectors
         keep = {(0, 2, 2, 0), (2, 2, 2, 2), (2, 0, 0, 2)}
         beh = [b for b in beh if tuple(b[0]) in keep]
-    cases = core.pmap(one_schedule_case, [(k, b[0], b[1], ctx.seed + k) for k, b in enumerate(beh)], chunksize=4)
+    cases = core.pmap(one_schedule_case, [(k, b[0], b[1], ctx.seed + k) for k, b in enumerate(beh)], chunksize=4, on_raise='drop')
     degraded = sum(1 for c in cases if c is None)
     cases = [c for c in cases if c is not None]
     if degraded:
         ctx.assumptions.append(f'{degraded} schedule replays skipped: deblend.ProcessPoolExecutor/as_completed not substitutable (real pools only)')
-    pool = core.pmap(real_pool_case, [(10**6 + k, [2, 0, 2, 2], 2 + k % 2, ctx.seed + k) for k in range(2 if q else 6)], procs=2, chunksize=1) \
+    pool = core.pmap(real_pool_case, [(10**6 + k, [2, 0, 2, 2], 2 + k % 2, ctx.seed + k) for k in range(2 if q else 6)], procs=2, chunksize=1, on_raise='drop') \
         if True else []
-    refs = [c for c in core.pmap(random_refine_case, [ctx.seed * 104729 + 5000 + i for i in range(400 if q else 4000)], chunksize=8) if c is not None]
+    refs = [c for c in core.pmap(random_refine_case, [ctx.seed * 104729 + 5000 + i for i in range(400 if q else 4000)], chunksize=8, on_raise='drop') if c is not None]
     allc = cases + pool + refs
     ver = core.validate_batch(ctx, 'Trace_Deblend', allc, 'Trace:Deblend')
     nontriv = set()
